@@ -38,6 +38,11 @@ CHECKS = {
          "For every (t,n), 1<=t<=n<=5 (Ed25519; 3-4 for P-256, bn256.G1, kilic.G2; thorough up to 7), secrets {0,1,q-1,r}, bases {nil, explicit, independent}: every subset of the shares in every order (all permutations up to 4 shares), with nil gaps, surplus and repeated shares, goes through RecoverSecret/RecoverCommit/RecoverPriPoly/RecoverPubPoly (each twice, identical bytes, inputs unchanged): dealer's values iff >= t distinct shares, else an error. Eval vs model, PubPoly.Eval = Commit(PriPoly.Eval), Check over a share alphabet, Add/Mul homomorphisms.",
          "Trusted: math/big; map-iteration order inside Recover* is not controllable (results compared across two executions).",
          "DESIGN.md §4 C07"),
+ "C04": ("model_checking",
+         "exhaustive enumeration of a hostile-input alphabet (lengths, every bit flip of valid encodings, coordinate splices, flag bytes, model-built off-curve / wrong-subgroup / small-order points) against the real decoders, with independent math/big membership predicates and a follow-up operation program",
+         "For the 20 group instances plus a cofactor-84 residue group built through the public SetParams: every input of the alphabet is decoded; a panic is a violation; an accepted value must satisfy the independent membership predicate of the set the group promises (curve equations over Fp / Fp2, x^q=1, (q-1)P+P=O for BLS12-381), survive a follow-up program (encode, Add, Sub, Mul, Neg, Equal, String, Clone, Data) and round-trip. Scalars: range-checking decoders must reject q, q+1, 2q-1, ...; later arithmetic must not panic. 40 composite entry points (Schnorr x6, EdDSA x3, BLS x8, CoSi, proof.HashVerify x3, ECIES x2, anon Decrypt/Verify x6, VSS Deal.Unmarshal x2): every truncation, bit flips, constant blocks, byte overwrites of an honest message -> never a panic.",
+         "Trusted: curve parameters transcribed into /verif (self-tested on the base points), math/big. BLS subgroup membership is decided through the API.",
+         "DESIGN.md §4 C04"),
 }
 
 NOT_YET = "check not built yet in this round (planned: see DESIGN.md §4)"
